@@ -187,6 +187,20 @@ def stepC09 (C : List (List Nat)) (ws : List String) : List (List Nat) × Resp :
       | some db => showDb db
       | none => "err MismatchKSizes"
     (C, { model := r, spec := "err MismatchKSizes" })
+  | ["rejectperm", split, how] =>
+    let C1 := C.take split.toNat!
+    let db1 := createDb codec C1 [] (groupingFrom 0)
+    let recs := recordsOf C
+    let newRecs : List (Nat × List Nat) :=
+      if how == "front" then (2000000, [999983]) :: recs
+      else match recs with
+        | a :: b :: rest => b :: a :: rest
+        | l => l
+    let C' := newRecs.map (·.2)
+    let r := match updateDb codec db1 (recordsOf C1) newRecs C' [] (groupingFrom 1) with
+      | some db => showDb db
+      | none => "err MismatchKSizes"
+    (C, { model := r, spec := "err MismatchKSizes" })
   | ["truncate", split, m] =>
     let C1 := C.take split.toNat!
     let C2 := C.take m.toNat!
